@@ -156,6 +156,102 @@ func init() {
 func TestPropSyn(t *testing.T)    { rapid.Check(t, propSyn) }
 func TestPropCorpus(t *testing.T) { rapid.Check(t, propCorpus) }
 
+// HangCase: the hanging-indent layouts the decorator has explicit support for (comments after a
+// clause body at body indentation, also after an empty clause; comments before the next clause at
+// clause indentation; trailing comments before the closing brace). They are column-dependent for
+// go/printer, so ColumnRobust classes many of them as KF-1 — but dave/dst reproduces every one of
+// them on the pinned tree (2 048 of 2 048 in an exhaustive probe), so this family is judged by
+// strict byte equality, without any class predicate.
+type HangCase struct {
+	Src string `json:"src"`
+}
+
+func genHang(t *rapid.T) (HangCase, bool) {
+	const sub = "Hanging"
+	var sb strings.Builder
+	n := 0
+	id := func() int { n++; return n }
+	var clauses func(ind string, depth int)
+	stmt := func(ind string, depth int) {
+		switch rapid.IntRange(0, 6).Draw(t, "stmt") {
+		case 0:
+			if depth < 2 {
+				clauses(ind, depth+1)
+				return
+			}
+			fmt.Fprintf(&sb, "%sb%d()\n", ind, id())
+		case 2:
+			fmt.Fprintf(&sb, "%sif c%d {\n%s\tb%d()\n%s\t// inif%d\n%s}\n", ind, id(), ind, id(), ind, id(), ind)
+		default:
+			fmt.Fprintf(&sb, "%sb%d()\n", ind, id())
+		}
+	}
+	clauses = func(ind string, depth int) {
+		kind := rapid.IntRange(0, 2).Draw(t, "kind")
+		hdrs := [][]string{{"case 1:", "case 2, 3:", "default:", "case f():"}, {"case <-c:", "case v := <-c:", "default:", "case c <- 1:"}, {"case int:", "case string, bool:", "default:", "case nil:"}}[kind]
+		sb.WriteString(ind + []string{"switch x {", "select {", "switch y := x.(type) {"}[kind] + "\n")
+		nc := rapid.IntRange(1, 4).Draw(t, "nclauses")
+		for i := 0; i < nc; i++ {
+			if i > 0 {
+				for j, m := 0, rapid.IntRange(0, 2).Draw(t, "lead"); j < m; j++ {
+					fmt.Fprintf(&sb, "%s// lead%d\n", ind, id())
+				}
+			}
+			sb.WriteString(ind + hdrs[rapid.IntRange(0, len(hdrs)-1).Draw(t, "hdr")] + "\n")
+			for j, m := 0, rapid.IntRange(0, 2).Draw(t, "body"); j < m; j++ {
+				stmt(ind+"\t", depth)
+			}
+			for j, m := 0, rapid.IntRange(0, 2).Draw(t, "hang"); j < m; j++ {
+				if rapid.IntRange(0, 4).Draw(t, "blank") == 0 {
+					sb.WriteString("\n")
+				}
+				fmt.Fprintf(&sb, "%s\t// hang%d\n", ind, id())
+			}
+		}
+		sb.WriteString(ind + "}\n")
+	}
+	sb.WriteString("package p\n\nfunc f() {\n")
+	for i, m := 0, rapid.IntRange(1, 3).Draw(t, "top"); i < m; i++ {
+		stmt("\t", 0)
+	}
+	if rapid.Bool().Draw(t, "tail") {
+		fmt.Fprintf(&sb, "\t// tail%d\n", id())
+	}
+	sb.WriteString("}\n")
+	src := sb.String()
+	if !oracle.IsCanon([]byte(src)) {
+		h.Exclude("hanging-indent template is not a gofmt fixpoint")
+		return HangCase{}, false
+	}
+	if strings.Contains(src, "// hang") || strings.Contains(src, "// lead") {
+		h.NonTrivial(sub, src)
+	}
+	if known.LayoutClass([]byte(src)) != "" {
+		h.Label("hanging:classed-column-dependent-but-judged-strictly")
+	}
+	h.Sample(sub, src)
+	return HangCase{Src: src}, true
+}
+
+func checkHang(t h.TB, c HangCase) {
+	const sub = "Hanging"
+	for e := 0; e < 2; e++ {
+		var out []byte
+		var err error
+		h.Guard(t, sub, c, func() { out, err = dsth.RoundTrip([]byte(c.Src), e*3, e, 0) })
+		if err != nil {
+			h.Fail(t, sub, c, "round trip failed: %v", err)
+		}
+		if !bytes.Equal(out, []byte(c.Src)) {
+			h.Fail(t, sub, c, "hanging-indent layout is not reproduced: %s\n--- got ---\n%s", oracle.FirstDiffLine([]byte(c.Src), out), out)
+		}
+	}
+}
+
+var propHang = h.Prop("Hanging", genHang, checkHang)
+
+func TestPropHanging(t *testing.T) { rapid.Check(t, propHang) }
+
 // DirCase is a directory of canonical files for the ParseDir entry point.
 type DirCase struct {
 	Files  map[string]string `json:"files"` // name -> canonical source
@@ -320,6 +416,9 @@ func TestReplay(t *testing.T) {
 		src := gen.ReadCorpus(files[i])
 		if !oracle.IsCanon(src) {
 			continue
+		}
+		if _, _, err := oracle.Parse(src); err != nil {
+			continue // format.Source accepts fragments (and empty files) that are not Go files
 		}
 		n++
 		h.Eval("CorpusSweep")
